@@ -150,6 +150,70 @@ iterate_body.cname = 'flowsplit_ctd._iterate/loop-body'
 iterate_body.run_kw = dict(check_div=False, max_paths=200)
 
 
+def transition_args(S, cfg):
+    """the set-up of the transition / spacer-grid iteration: the real _calc_transition_flowsplit and
+    _calc_bundle_plus_grid_flow_split hand _iterate (stubbed here by a recorder; its own contract is
+    iterate_body) the Cheng-Todreas subchannel quantities
+        s_i = N_i A_i / A_b,   Re_iL = Re_bL (De_i/De_b) X_i,laminar,   Re_iT = Re_bT (De_i/De_b) X_i,turbulent
+    (the subchannel Reynolds number Re_i = Re_b X_i De_i/De_b evaluated at the two regime boundaries with the split of
+    that regime), the laminar / turbulent friction constants in that order, and - with grids - the loss
+    coefficient times the number of grids over the bundle length; and return what the iteration returns."""
+    from dassh.correlations import flowsplit_ctd as fsc, friction_ctd as ffc
+    rr = _bundle(S, cfg['n_ring'])
+    const = _ctd_constants(S, rr, 'ctd')
+    with patched((ffc, 'calc_constants', lambda asm: dict(const))):
+        rr.corr_constants['fs'] = fsc.calc_constants(rr)
+    C = rr.corr_constants['fs']
+    rec = {}
+    ret = S.vec('x_iter', 3, 'pos', 0.8, 1.2)
+
+    def recorder(Re, s, De_i, De_b, Re_iL, Re_iT, Cf_iL, Cf_iT, GLC_i=None, L=1.0, lam=None):
+        rec.update(Re=Re, s=s, De_i=De_i, De_b=De_b, Re_iL=Re_iL, Re_iT=Re_iT, Cf_iL=Cf_iL, Cf_iT=Cf_iT,
+                   GLC_i=GLC_i, L=L, lam=lam)
+        return [ret[0], ret[1], ret[2]]
+    grid = cfg.get('grid', False)
+    lam = cfg.get('lam')
+    lam_v = S.pos('lambda', 5.0, 9.0) if lam else None
+    if grid:
+        rr.corr_constants['grid'] = {'n': cfg.get('n_grid', 3)}
+        rr.coolant_int_params['grid_loss_coeff'] = S.vec('glc', 3, 'pos', 0.5, 3.0)
+        rr.z = [S.nonneg('z_lo', 0.0, 0.5), S.nonneg('z_lo', 0.0, 0.5) + S.pos('L_bundle', 0.5, 3.0)]
+    with patched((fsc, '_iterate', recorder)):
+        if grid:
+            x = fsc._calc_bundle_plus_grid_flow_split(rr, C['Cf_sc'], lam_v)
+        else:
+            x = fsc._calc_transition_flowsplit(rr, lam_v)
+    S.holds('transition.iterate_called', bool(rec))
+    n_sc = [rr.subchannel.n_sc['coolant'][k] for k in ('interior', 'edge', 'corner')]
+    A, De = rr.params['area'], rr.params['de']
+    Ab, Deb = rr.bundle_params['area'], rr.bundle_params['de']
+    tag = 'grid' if grid else 'transition'
+    S.eq(f'{tag}.Re', rec['Re'], rr.coolant_int_params['Re'])
+    S.eq(f'{tag}.De_b', rec['De_b'], Deb)
+    for t in range(3):
+        S.eq(f'{tag}.area_share[{t}]', rec['s'][t], n_sc[t] * A[t] / Ab)
+        S.eq(f'{tag}.De_i[{t}]', rec['De_i'][t], De[t])
+        S.eq(f'{tag}.Re_iL[{t}]', rec['Re_iL'][t], C['Re_bnds'][0] * De[t] / Deb * C['fs']['laminar'][t])
+        S.eq(f'{tag}.Re_iT[{t}]', rec['Re_iT'][t], C['Re_bnds'][1] * De[t] / Deb * C['fs']['turbulent'][t])
+        S.eq(f'{tag}.Cf_iL[{t}]', rec['Cf_iL'][t], C['Cf_sc']['laminar'][t])
+        S.eq(f'{tag}.Cf_iT[{t}]', rec['Cf_iT'][t], C['Cf_sc']['turbulent'][t])
+        S.eq(f'{tag}.returns_iterate_result[{t}]', x[t], ret[t])
+        if grid:
+            S.eq(f'{tag}.grid_loss[{t}]', rec['GLC_i'][t], rr.coolant_int_params['grid_loss_coeff'][t] * cfg.get('n_grid', 3))
+    S.eq(f'{tag}.area_shares_sum_to_one', rec['s'][0] + rec['s'][1] + rec['s'][2], 1)
+    if grid:
+        S.eq(f'{tag}.length', rec['L'], rr.z[1] - rr.z[0])
+    else:
+        S.holds(f'{tag}.no_grid_loss', rec['GLC_i'] is None)
+    if lam:
+        S.eq(f'{tag}.lambda', rec['lam'], lam_v)
+    else:
+        S.holds(f'{tag}.lambda_none', rec['lam'] is None)
+    S.eq(f'canary.{tag}_ReiL_is_ReiT', rec['Re_iL'][0], rec['Re_iT'][0], canary=True)
+transition_args.cname = 'flowsplit_ctd._calc_transition_flowsplit/_calc_bundle_plus_grid_flow_split'
+transition_args.run_kw = dict(check_div=False)
+
+
 def ffb_tr(S, cfg):
     """transition friction factor: non-negative combination of the laminar and turbulent values"""
     from dassh.correlations import flowsplit_ctd as fsc
@@ -192,7 +256,9 @@ mass_flow.cname = 'RoddedRegion.sc_mfr'
 def configs(tier):
     out = [(ctd_constant, dict(n_ring=2)), (ctd_constant, dict(n_ring=3)), (nov_mit, dict(n_ring=2)),
            (iterate_body, dict()), (iterate_body, dict(grid=True)), (ffb_tr, dict()), (ffb_tr, dict(uctd=True)),
-           (mass_flow, dict(n_ring=2)), (mass_flow, dict(n_ring=3, n_duct=2))]
+           (mass_flow, dict(n_ring=2)), (mass_flow, dict(n_ring=3, n_duct=2)),
+           (transition_args, dict(n_ring=2)), (transition_args, dict(n_ring=3, lam=True)),
+           (transition_args, dict(n_ring=2, grid=True)), (transition_args, dict(n_ring=2, grid=True, lam=True))]
     if tier == 'thorough':
         out += [(ctd_constant, dict(n_ring=5)), (nov_mit, dict(n_ring=4)), (mass_flow, dict(n_ring=4, n_duct=3))]
     return out
